@@ -20,7 +20,7 @@ rename of locals or parameters does not change any atom.
 import ast
 import itertools
 
-from .model import dotted, src
+from .model import dotted, src, walk_shallow
 from .report import AnalysisError
 
 MAX_PATHS = 20000
@@ -881,6 +881,71 @@ class Interp:
             return False      # an instance just constructed
         return self.decide(("isnone", t))
 
+    def _namedtuples(self):
+        """qualified name -> field names, for module-level
+        `X = collections.namedtuple('X', fields)` with literal fields."""
+        tab = getattr(self.m, "_namedtuple_table", None)
+        if tab is None:
+            tab = {}
+            for mod in self.m.modules.values():
+                for nm, vals in mod.assigns.items():
+                    if len(vals) != 1 or not isinstance(vals[0], ast.Call):
+                        continue
+                    c = vals[0]
+                    if src(c.func) not in ("collections.namedtuple",
+                                           "namedtuple") or len(c.args) != 2:
+                        continue
+                    f = c.args[1]
+                    fields = None
+                    if isinstance(f, (ast.Tuple, ast.List)) and all(
+                            isinstance(e, ast.Constant) and isinstance(
+                                e.value, str) for e in f.elts):
+                        fields = [e.value for e in f.elts]
+                    elif isinstance(f, ast.Constant) and isinstance(
+                            f.value, str):
+                        fields = f.value.replace(",", " ").split()
+                    if fields and not c.keywords:
+                        tab[mod.name + "." + nm] = fields
+            self.m._namedtuple_table = tab
+        return tab
+
+    def _nt_terms(self):
+        t = getattr(self.path, "nt_terms", None)
+        if t is None:
+            t = self.path.nt_terms = {}
+        return t
+
+    def _namedtuple_of(self, base):
+        """Field names when `base` is known to be an instance of a private
+        namedtuple: built by its constructor on this path, or the result of
+        a repository function all of whose returns construct it."""
+        try:
+            hit = self._nt_terms().get(base)
+        except TypeError:
+            hit = None
+        if hit is not None:
+            return hit
+        tab = self._namedtuples()
+        if not tab or base[0] != "call" or base[1][0] != "global":
+            return None
+        fn = self.m.functions.get(base[1][1])
+        if fn is None:
+            return None
+        cache = getattr(self.m, "_nt_returns", None)
+        if cache is None:
+            cache = self.m._nt_returns = {}
+        if fn.qualname not in cache:
+            kinds = set()
+            for n in walk_shallow(fn.node):
+                if isinstance(n, ast.Return):
+                    q = None
+                    if isinstance(n.value, ast.Call):
+                        q = self.m.resolve(fn.module, n.value.func)
+                    kinds.add(q if q in tab else None)
+            cache[fn.qualname] = tab[kinds.pop()] if len(kinds) == 1 \
+                and None not in kinds else None
+        return cache[fn.qualname]
+
     def _stores_non_none(self, d):
         """Every value this activation has stored into the local mapping d is
         known not to be None."""
@@ -934,6 +999,10 @@ class Interp:
                     and node.attr in NAMED_FIELDS.get(base[1][1], ()):
                 return ("index", base, const(
                     NAMED_FIELDS[base[1][1]].index(node.attr)))
+            nt = self._namedtuple_of(base)
+            if nt is not None and node.attr in nt:
+                # a private namedtuple is the tuple of its fields
+                return mk_index(base, const(nt.index(node.attr)))
             t = ("attr", base, node.attr)
             if self.rewrite is not None:
                 t = self.rewrite(t)
@@ -1629,6 +1698,18 @@ class Interp:
         # inlining
         if self.depth < self.max_inline:
             repo = [c for c in callees if c.kind == "repo"]
+            if len({id(c.fn) for c in repo}) > 1 and isinstance(
+                    f, ast.Attribute) and self.eval(f.value, env) == (
+                        "self",) and self.fi.cls is not None \
+                    and fi is self.fi:
+                # self.hook() with overrides in subclasses: the function is
+                # analysed for one receiver class (the class it is compared
+                # for, else its own); what that class has is what runs
+                cq = self.self_class or getattr(self.fi.cls, "qualname", None)
+                eff = self.m.lookup_method(cq, f.attr) if cq else None
+                if eff is not None and any(c.fn is eff for c in repo):
+                    repo = [c for c in repo if c.fn is eff]
+                    callees = repo
             if repo and len(repo) == len(callees) and all(
                     c.fn is repo[0].fn for c in repo) \
                     and self.inline(repo[0].fn):
@@ -1656,6 +1737,28 @@ class Interp:
                 and _is_message_term(args[0]):
             # the wording of an error message is not behaviour we compare
             args = (const("<message>"),) + args[1:]
+        if ft[0] == "global" and ft[1] in self._namedtuples():
+            fields = self._namedtuples()[ft[1]]
+            vals = list(args) + [None] * (len(fields) - len(args))
+            okk = len(args) <= len(fields)
+            for k, v in kws:
+                if k in fields and vals[fields.index(k)] is None:
+                    vals[fields.index(k)] = v
+                else:
+                    okk = False
+            if okk and all(v is not None for v in vals):
+                t = ("tuple", tuple(vals))
+                self._nt_terms()[t] = fields
+                return t
+            if len(args) == 1 and not kws and args[0][0] == "unop" \
+                    and args[0][1] == "star":
+                # X(*seq): the sequence itself, read through the fields
+                self._nt_terms()[args[0][2]] = fields
+                return args[0][2]
+        if not (isinstance(f, ast.Name) and f.id in env):
+            # (a callable held in a local or parameter is resolved through
+            # inferred types, which the two sides need not share)
+            args, kws = self._with_defaults(callees, args, kws)
         t = ("call", ft, args, kws)
         if not self.is_pure(ft):
             # the n-th identical effectful call is a different event with a
@@ -1702,6 +1805,60 @@ class Interp:
                 and is_const(args[0]) and isinstance(args[0][1], (bool, int)):
             return const(int(args[0][1]))
         return t
+
+    def _with_defaults(self, callees, args, kws):
+        """f(a) and f(a, None) are the same call when None is the default of
+        the second parameter: trailing parameters left out are filled in
+        with their (constant) defaults, keywords that name positional
+        parameters are put in place -- when every resolved callee agrees."""
+        repo = [c for c in callees if c.kind == "repo"]
+        if not repo or len(repo) != len(callees) or any(
+                isinstance(a, tuple) and a and a[0] == "unop"
+                and a[1] == "star" for a in args):
+            return args, kws
+        shapes = set()
+        for c in repo:
+            a = c.fn.node.args
+            if a.vararg or a.kwarg or a.kwonlyargs or a.posonlyargs:
+                return args, kws
+            names = [x.arg for x in a.args]
+            bound = c.fn.cls is not None and c.how not in (
+                "basecall", "func") and not any(
+                    getattr(d, "id", None) == "staticmethod"
+                    for d in c.fn.node.decorator_list)
+            if c.how == "ctor":
+                bound = True
+            if bound:
+                names = names[1:]
+            defaults = list(a.defaults)
+            dmap = {}
+            for nme, d in zip(a.args[len(a.args) - len(defaults):],
+                              defaults):
+                if not isinstance(d, ast.Constant):
+                    return args, kws
+                dmap[nme.arg] = const(d.value)
+            shapes.add((tuple(names), tuple(sorted(dmap.items(),
+                                                   key=lambda kv: kv[0]))))
+        if len(shapes) != 1:
+            return args, kws
+        names, dm = shapes.pop()
+        dm = dict(dm)
+        if len(args) > len(names):
+            return args, kws
+        out = list(args)
+        kw = dict((k, v) for k, v in kws if k is not None)
+        if len(kw) != len(kws):
+            return args, kws
+        for nme in names[len(args):]:
+            if nme in kw:
+                out.append(kw.pop(nme))
+            elif nme in dm:
+                out.append(dm[nme])
+            else:
+                return args, kws
+        if kw:
+            return args, kws
+        return tuple(out), ()
 
     def _is_exception_class(self, qual):
         if qual in self.m.classes:
